@@ -6,3 +6,17 @@ const("boot_addr_expiry_secs", "ant-bootstrap/src/config.rs",
       r"const ADDR_EXPIRY_DURATION: Duration = Duration::from_secs\(([^)]*)\);", conv=arith)
 const("boot_max_peers", "ant-bootstrap/src/config.rs", r"const MAX_PEERS: usize = ([\d_]+);")
 const("boot_max_addrs_per_peer", "ant-bootstrap/src/config.rs", r"const MAX_ADDRS_PER_PEER: usize = ([\d_]+);")
+
+
+def _write_is_atomic_only(src):
+    """BootstrapCacheStore::write: every path to the disk goes through AtomicWriteFile (open ... commit); no direct
+    File::create / fs::write / OpenOptions in its body and no early `return` that skips the write"""
+    m = re.search(r"pub fn write\(&self\) -> Result<\(\)> \{(.*?)\n    \}\n", src, re.S)
+    if not m:
+        raise ValueError("BootstrapCacheStore::write not found")
+    body = m.group(1)
+    direct = any(t in body for t in ("File::create", "fs::write", "OpenOptions", "fs::copy", "fs::rename"))
+    return ("AtomicWriteFile::options()" in body and ".commit()" in body and not direct and not re.search(r"\breturn\b", body))
+
+
+const("boot_write_atomic_only", "ant-bootstrap/src/cache_store.rs", _write_is_atomic_only, ty="bool")
